@@ -342,7 +342,7 @@ pub fn rle_16_decompress(input: &[u8], width: usize, mut height: usize, output: 
 				0xe => {
 					repeat!(output[line.unwrap() + x] = 0, count, x, width);
 				}
-				_ => panic!("opcode")
+				_ => return Err(Error::RdpError(RdpError::new(RdpErrorKind::InvalidData, "Unknown RLE order code")))
 			}
 		}
 	}
